@@ -179,7 +179,7 @@ Proof.
   intros s W. unfold del_x.
   assert (wf (set_x_d None (mod_x (old_plain s) s))).
   { dstate s. unfold mod_x, old_plain. cbn. destruct xc, xd; cbn; wfsolve. }
-  destruct (negb (is_some (x_d s)) && negb (expired s) && negb (x_e s)); exact H.
+  destruct (negb (is_some (x_d s)) && negb (expired s) && negb (x_e s)); [exact W|exact H].
 Qed.
 
 (* ---------- many-to-one ---------- *)
@@ -275,7 +275,7 @@ Proof.
   destruct (coll_touch s) as [s1 ok]. cbn [fst snd] in *. subst ok. cbn [negb].
   destruct (coll_event_wf s1 W1 N) as [We [_ Ws]].
   destruct k.
-  - destruct (memb o (cur_coll s1)); [apply Ws|exact We].
+  - destruct (memb o (cur_coll s1)); [apply Ws|exact W1].
   - destruct (memb o (cur_coll s1)); [apply Ws|exact W1].
   - destruct (holder o (cur_coll s1)); [|exact W1]. destruct (v =? o); [apply Ws|exact W1].
 Qed.
@@ -438,7 +438,6 @@ Proof.
 Qed.
 
 Lemma update_row_ok : forall nb s, wf s -> persistent s = true -> nb = sync_b s ->
-  negb (is_nohist (x_c s)) && negb (is_some (x_d s)) = false ->
   let s1 := update_row nb s in
   persistent s1 = true /\
   (forall v, x_d s1 = Some v -> v = db_x s1) /\
@@ -446,17 +445,19 @@ Lemma update_row_ok : forall nb s, wf s -> persistent s = true -> nb = sync_b s 
   (bid_d s1 = false -> bid_e s1 = false -> db_b s1 = 0) /\
   c_d s1 = c_d s /\ c_c s1 = c_c s /\ db_c s1 = db_c s.
 Proof.
-  intros nb s W P E KE. pose proof (sync_b_spec s W) as SB. rewrite <- E in SB. clear E.
+  intros nb s W P E. pose proof (sync_b_spec s W) as SB. rewrite <- E in SB. clear E.
   destruct (update_row_proj nb s) as (P1 & BD & DB & CD & CC & DC & _).
   cbn zeta. repeat split; try congruence.
   - clear SB P1 BD DB CD CC DC. dstate s. destruct W. unfold update_row, upd_x. cbn in *. subst pe.
     destruct nb, xd as [v0|], xc as [| | |p], xe, ide, bdd, bde; cbn in *;
-      try (destruct (v0 =? p) eqn:EE; [apply N.eqb_eq in EE|]); cbn;
+      try (destruct (v0 =? p) eqn:EE; [apply N.eqb_eq in EE|]);
+      try (match goal with |- context [match ?q with 0 => _ | N.pos _ => _ end] => is_var q; destruct q end); cbn;
       try (destruct (_ =? dbb)); cbn; intros; fin.
   - intros v D. rewrite BD in D. rewrite DB. apply SB. exact D.
   - rewrite DB. clear SB P1 BD DB CD CC DC. dstate s. destruct W. unfold update_row, upd_x. cbn in *. subst pe.
     destruct nb, xd as [v0|], xc as [| | |p], xe, ide, bdd, bde; cbn in *;
-      try (destruct (v0 =? p) eqn:EE); cbn;
+      try (destruct (v0 =? p) eqn:EE);
+      try (match goal with |- context [match ?q with 0 => _ | N.pos _ => _ end] => is_var q; destruct q end); cbn;
       try (destruct (_ =? dbb)); cbn; intros; fin.
 Qed.
 
@@ -470,8 +471,8 @@ Proof.
     apply finish_flush_wf; auto.
     intros l D. rewrite (flush_dbc_ext s _ CD CC DC). apply flush_dbc_cur; [exact W|congruence].
   - apply negb_false_iff in NP.
-    destruct (negb (is_nohist (x_c s)) && negb (is_some (x_d s))) eqn:KE; [exact W|]. cbn [fst].
-    destruct (update_row_ok (sync_b s) s W NP eq_refl KE) as (P & X & B & I & CD & CC & DC).
+    cbn [fst].
+    destruct (update_row_ok (sync_b s) s W NP eq_refl) as (P & X & B & I & CD & CC & DC).
     apply finish_flush_wf; auto.
     intros l D. rewrite (flush_dbc_ext s _ CD CC DC). apply flush_dbc_cur; [exact W|congruence].
 Qed.
